@@ -185,6 +185,9 @@ func (clientScn) Run(t *testing.T, seed uint64, plan any, o RunOpts) *Report {
 	o.apply(&cfg)
 	cfg.OnIdle = r.onIdle
 	cfg.MaxSim = 2 * time.Hour
+	// a reconnect loop that never waits shows up as scheduler steps without simulated time passing;
+	// this scenario moves only a few hundred bytes, so 300000 steps at one instant is such a loop
+	cfg.LivelockSteps = 300_000
 	res := simrt.Run(t, cfg, r.main)
 	rep := newReport(res)
 	if r.net != nil {
